@@ -236,6 +236,7 @@ def checkIfAllowed (s : EState) (src dst proto port : String) : Except Err Bool 
     | .error e => (.error e, s)
     | .ok dp =>
       if Engine.isPodToItself sp dp then (.ok true, s)
+      else if (proto != "" || port != "") && port.toInt?.isNone then (.error .badPort, s)
       else
         let k := connKey sp dp proto port
         let (hit, cache') := if k == "" then (none, s.cache) else s.cache.get k
